@@ -194,6 +194,11 @@ def evaluate(case, ctx):
         raise engine.Discard("reference-run-failed")
     viols = []
     refout = read_all(refc, ref, "reference", viols)
+    if any(v["clause"] == "unreadable-output" for v in viols):
+        # the plain single-core run already wrote a record that is not valid FASTQ/FASTA: a defect of
+        # a per-read function (seen: indexed anchored adapters on reads shorter than the adapter,
+        # --action=mask), not of this property
+        raise engine.Discard("reference-output-malformed")
     keys = []
     for k in range(case["n_variants"]):
         v = make_variant(case, rng)
